@@ -172,6 +172,11 @@ def rule_sticky(ctx):
             if positive:
                 conds.append(sc[0])
         sticky = any(b.dominates(c, bi) for c in clear_blocks)
+        # ... and every test on some way to this block whose other outcome can end in a `false` answer: in `a || b`
+        # neither disjunct dominates, yet both decide whether the answer stays `true` on the next call
+        for c in _deciding_tests(b, sym, bi):
+            if not any(c == o for o in conds):
+                conds.append(c)
         label = classify_conditions(conds)
         key = "%s:returns-true:on=%s" % (b.key, label)
         where = b.where(line=s.get("line"))
@@ -188,6 +193,74 @@ def rule_sticky(ctx):
 
 
 _CTX = {}
+
+
+def _deciding_tests(b, sym, bi, max_paths=400):
+    """Conditions of the switches passed on some acyclic path from entry to `bi` whose not-taken side can reach an
+    assignment of something other than `true` to the return place without passing `bi`.  A bool test required false is
+    returned negated (a monotone comparison required *false* is not monotone in the direction that matters)."""
+    falsy = set()
+    for fb, i, s in b.stmts():
+        if mir.is_local(s["lhs"]) and s["lhs"]["l"] == 0 and fb != bi and sym.rvalue(s["rv"]) != ("const", 1, "bool"):
+            falsy.add(fb)
+    for fb, t in b.calls():
+        if mir.is_local(t["dest"]) and t["dest"]["l"] == 0 and fb != bi:
+            falsy.add(fb)
+    out = []
+    n_paths = [0]
+    seen_lit = set()
+
+    def succs(x):
+        t = b.blocks[x].term
+        k = t["k"]
+        if k == "goto":
+            return [t["target"]]
+        if k == "switch":
+            return [a[1] for a in t["arms"]] + [t["otherwise"]]
+        if k in ("call", "drop", "assert") and t.get("target") is not None:
+            return [t["target"]]
+        return []
+
+    def walk_paths(x, on_path, lits):
+        if n_paths[0] > max_paths:
+            return
+        if x == bi:
+            n_paths[0] += 1
+            for lit in lits:
+                seen_lit.add(lit)
+            return
+        if x in on_path or bi not in b.reachable_from(x, include_start=True):
+            return
+        t = b.blocks[x].term
+        if t["k"] == "switch":
+            for tgt in dict.fromkeys(succs(x)):
+                walk_paths(tgt, on_path | {x}, lits + [(x, tgt)])
+        else:
+            for tgt in succs(x):
+                walk_paths(tgt, on_path | {x}, lits)
+
+    import sys
+    sys.setrecursionlimit(max(sys.getrecursionlimit(), 5000))
+    walk_paths(0, frozenset(), [])
+    if n_paths[0] > max_paths:
+        return [("unknown", "too many paths to the true answer")]
+    for d, tgt in sorted(seen_lit):
+        t = b.blocks[d].term
+        others = [x for x in dict.fromkeys(succs(d)) if x != tgt]
+        harmful = any(falsy & b.reachable_from(o, removed={bi}, include_start=True) for o in others)
+        if not harmful:
+            continue
+        sc = C.switch_cond(b, sym, d)
+        if sc is None:
+            continue
+        e = sc[0]
+        if t.get("discr_ty") == "bool":
+            f, tr = C.switch_edges(t)
+            truth = (tgt in tr) != sc[1]
+            if not truth:
+                e = ("un", "Not", e)
+        out.append(e)
+    return out
 
 
 def expand_vars(c, depth=0):
